@@ -19,7 +19,7 @@
 //! which is reported as a panic of its own kind.
 use lopdf::xref::{XrefEntry, XrefType};
 use lopdf::{Dictionary, Document, IncrementalDocument, Object, Stream, StringFormat};
-use lopdf_conform::{guard::guarded, io::*, rng::Rng, wire};
+use lopdf_conform::{guard::guarded, io::*, rng::Rng, sup, wire};
 use serde_json::{json, Value};
 use std::io::{self, Write};
 
@@ -518,9 +518,12 @@ struct Reference {
     bytes: Vec<u8>,
     w: Vec<usize>,
     content: String,
+    /// the loaded reference with nothing left out (object table incl. the cross-reference stream,
+    /// max_id, whole trailer): what the save of a fresh clone loads to
+    strict: String,
     /// load_mem is a function of the bytes: results of loading a later output are memoised by its
     /// exact bytes (most later outputs are byte-identical to the reference)
-    memo: std::cell::RefCell<std::collections::HashMap<Vec<u8>, (String, bool, bool)>>,
+    memo: std::cell::RefCell<std::collections::HashMap<Vec<u8>, (String, bool, bool, bool)>>,
 }
 
 /// Reference output of a configuration: a clone saved to a healthy instrumented sink.
@@ -564,7 +567,46 @@ fn reference(cfg: usize, saver: &Saver, meta: &Value) -> Result<(Reference, Valu
     rec["marks"] = json!([base, body, doc.xref_start, tail]);
     rec["esc"] = json!(esc_ranges(&bytes).iter().map(|r| json!([r.0, r.1])).collect::<Vec<_>>());
     rec["zcalls"] = json!(sink.zero_calls);
-    Ok((Reference { cfg, bytes, w, content: content(&doc), memo: Default::default() }, rec))
+    let strict = wire::doc_to_json(&doc).to_string();
+    Ok((Reference { cfg, bytes, w, content: content(&doc), strict, memo: Default::default() }, rec))
+}
+
+/// Load an output and compare it with the reference: (load result, same content modulo cross-reference
+/// bookkeeping, cross-reference entries valid, STRICTLY the same loaded document).  Memoised by bytes.
+fn load_compare(v: &[u8], rf: &Reference) -> (String, bool, bool, bool) {
+    if let Some(x) = rf.memo.borrow().get(v).cloned() {
+        return x;
+    }
+    let ld = guarded(|| Document::load_mem(v));
+    let mut x = (tag(&ld).to_string(), false, false, false);
+    if let Ok(Ok(d)) = ld {
+        let (_, bad, sx) = xref_check(v, &d);
+        x = ("ok".to_string(), content(&d) == rf.content, bad == 0 && sx, wire::doc_to_json(&d).to_string() == rf.strict);
+    }
+    rf.memo.borrow_mut().insert(v.to_vec(), x.clone());
+    x
+}
+
+/// Two saves of ONE clone to two healthy sinks that chunk differently.
+fn twice(saver: &Saver, c1: Chunk, c2: Chunk, rf: &Reference, seed: u64) -> Value {
+    let mut s = saver.clone();
+    let budget = 64 * rf.bytes.len() + 4096;
+    let cj = |c: Chunk| match c {
+        Chunk::Full => 0i64,
+        Chunk::Fixed(n) => n as i64,
+        Chunk::Random(m) => -(m as i64),
+    };
+    let mut a = Sink::new(Plan { chunk: c1, ..Plan::healthy() }, seed, budget);
+    let r1 = guarded(|| s.save_to(&mut a));
+    let mut b = Sink::new(Plan { chunk: c2, ..Plan::healthy() }, seed ^ 1, budget);
+    let r2 = guarded(|| s.save_to(&mut b));
+    let (mut load2, mut same2, mut valid2, mut strict2) = ("none".to_string(), false, false, false);
+    if tag(&r2) == "ok" {
+        (load2, same2, valid2, strict2) = load_compare(&b.out, rf);
+    }
+    json!({"ev": "twice", "cfg": rf.cfg, "c1": cj(c1), "c2": cj(c2), "res1": tag(&r1), "res2": tag(&r2),
+           "eq1": a.out == rf.bytes, "eq2": b.out == rf.bytes, "eq12": a.out == b.out, "len1": a.out.len(), "len2": b.out.len(),
+           "load2": load2, "same2": same2, "valid2": valid2, "strict2": strict2})
 }
 
 /// One save of a fresh clone through a sink following `plan`; if it fails, the later save.
@@ -599,30 +641,20 @@ fn run(saver: &Saver, plan: Plan, rf: &Reference, seed: u64, full_log: bool, pha
     }
     let tail: Vec<Value> = sink.log[skip..sink.log.len() - suf].iter().map(|c| json!([c.0, c.1])).collect();
     let dpre = rf.bytes.starts_with(&sink.out);
-    let mut later = json!({"res": "none", "load": "none", "same": false, "valid": false});
+    let mut later = json!({"res": "none", "load": "none", "same": false, "valid": false, "strict": false});
     if result == "err" {
         let mut v: Vec<u8> = Vec::new();
         let lr = guarded(|| s.save_to(&mut v));
         later["res"] = json!(tag(&lr));
         if tag(&lr) == "ok" {
-            let hit = rf.memo.borrow().get(&v).cloned();
-            let (load, same, valid) = match hit {
-                Some(x) => x,
-                None => {
-                    let ld = guarded(|| Document::load_mem(&v));
-                    let mut x = (tag(&ld).to_string(), false, false);
-                    if let Ok(Ok(d)) = ld {
-                        let (_, bad, sx) = xref_check(&v, &d);
-                        x = ("ok".to_string(), content(&d) == rf.content, bad == 0 && sx);
-                    }
-                    rf.memo.borrow_mut().insert(v.clone(), x.clone());
-                    x
-                }
-            };
+            let (load, same, valid, strict) = load_compare(&v, rf);
             later["load"] = json!(load);
             later["same"] = json!(same);
             later["valid"] = json!(valid);
+            later["strict"] = json!(strict);
             later["eqref"] = json!(v == rf.bytes);
+            // (for the record) the delivered bytes are also a prefix of what the later save wrote
+            later["dprel"] = json!(v.starts_with(&sink.out));
         }
     }
     let mut rec = json!({
@@ -716,6 +748,15 @@ fn record(args: &[String]) {
                     out.put(&run(&saver, plan, &rf, next_seed(), ci == 3 && intr == 0, "chunk"));
                 }
             }
+            // one document object, two sinks with different chunkings
+            for (c1, c2) in [
+                (Chunk::Full, Chunk::Fixed(1)),
+                (Chunk::Fixed(2), Chunk::Fixed(7)),
+                (Chunk::Random(16), Chunk::Fixed(3)),
+                (Chunk::Fixed(13), Chunk::Full),
+            ] {
+                out.put(&twice(&saver, c1, c2, &rf, next_seed()));
+            }
             // random combinations of failure position, kind, chunking, Interrupted, stickiness
             for _ in 0..combos {
                 let plan = Plan {
@@ -785,6 +826,123 @@ fn replay(args: &[String]) {
     out.finish();
 }
 
+// ------------------------------------------------------------------- numeric limit of object numbers
+
+/// document whose highest object number is 2^32 - 2 (the loader accepts it), cross-reference stream
+/// or table, plain or as the new revision of an incremental save
+fn limit_doc(fmt: &str, mode: &str) -> Result<Saver, String> {
+    let mut rng = Rng::new(19);
+    let mut doc = gen_doc(&mut rng, 8, 30);
+    doc.reference_table.cross_reference_type =
+        if fmt == "table" { XrefType::CrossReferenceTable } else { XrefType::CrossReferenceStream };
+    let top = (u32::MAX - 1, 0u16);
+    let mut d = Dictionary::new();
+    d.set("Limit", Object::Integer(1));
+    if mode == "plain" {
+        doc.objects.insert(top, Object::Dictionary(d));
+        doc.max_id = top.0;
+        Ok(Saver::Plain(doc))
+    } else {
+        let mut inc = make_incr(&doc, &mut rng, 30)?;
+        inc.new_document.objects.insert(top, Object::Dictionary(d));
+        inc.new_document.max_id = top.0;
+        Ok(Saver::Incr(inc))
+    }
+}
+
+/// worker side: one case per line {fmt, mode, sink: "healthy"|"chunk3"|"err"|"ok0", at: 0..=4 (quarter of the output)}
+fn limit_case(line: &str) -> String {
+    let c: Value = match serde_json::from_str(line) {
+        Ok(v) => v,
+        Err(e) => return json!({"ev": "limit", "tool": format!("bad case: {e}")}).to_string(),
+    };
+    let (fmt, mode) = (c["fmt"].as_str().unwrap_or("stream"), c["mode"].as_str().unwrap_or("plain"));
+    let saver = match limit_doc(fmt, mode) {
+        Ok(s) => s,
+        Err(e) => return json!({"ev": "limit", "tool": format!("no document: {e}")}).to_string(),
+    };
+    // a fresh clone to a healthy sink: result, and what its output loads to; the bytes that reach the sink
+    // before the writer stops (for whatever reason) fix the failure positions
+    let mut s0 = saver.clone();
+    let mut probe = Sink::new(Plan::healthy(), 0, 1 << 24);
+    let r0 = guarded(|| s0.save_to(&mut probe));
+    let refload = if tag(&r0) == "ok" { tag(&guarded(|| Document::load_mem(&probe.out))).to_string() } else { "none".to_string() };
+    let d = probe.out.len();
+    let at = c["at"].as_u64().unwrap_or(0) as usize;
+    let k = (d * at / 4).min(d.saturating_sub(1));
+    let plan = match c["sink"].as_str().unwrap_or("healthy") {
+        "healthy" => Plan::healthy(),
+        "chunk3" => Plan { chunk: Chunk::Fixed(3), ..Plan::healthy() },
+        "ok0" => Plan { fail_at: Some(k), kind: Kind::Ok0, ..Plan::healthy() },
+        _ => Plan { fail_at: Some(k), kind: Kind::Err, ..Plan::healthy() },
+    };
+    let mut s = saver.clone();
+    let mut sink = Sink::new(plan.clone(), 1, 1 << 24);
+    let r = guarded(|| s.save_to(&mut sink));
+    let failed = sink.log.iter().any(|c| c.1 == 0 || c.1 == R_ERR);
+    let (mut later, mut laterload) = ("none", "none");
+    if failed {
+        let mut v: Vec<u8> = Vec::new();
+        later = tag(&guarded(|| s.save_to(&mut v)));
+        if later == "ok" {
+            laterload = tag(&guarded(|| Document::load_mem(&v)));
+        }
+    }
+    let mut rec = json!({"ev": "limit", "later": later, "laterload": laterload, "maxid": (u32::MAX - 1).to_string(), "fmt": fmt, "mode": mode, "plan": plan.json(),
+        "ref": tag(&r0), "refload": refload, "reflen": d, "failed": failed, "result": tag(&r), "dlen": sink.out.len()});
+    if let Err(p) = &r {
+        rec["panic"] = json!(p.chars().take(100).collect::<String>());
+    }
+    if let Ok(Err(e)) = &r {
+        rec["ek"] = json!(format!("{:?}", e.kind()));
+    }
+    rec.to_string()
+}
+
+/// does this build check integer overflow?  (the harness, lopdf and all dependencies share the profile)
+fn overflow_checked() -> bool {
+    guarded(|| std::hint::black_box(u32::MAX) + std::hint::black_box(1)).is_err()
+}
+
+fn limit(args: &[String]) {
+    let mut out = NdjsonOut::create(&arg(args, "--out").unwrap());
+    let secs = arg_u64(args, "--timeout", 30);
+    let with_table = arg_u64(args, "--table", 0) == 1;
+    let profile = if overflow_checked() { "checked" } else { "wrapping" };
+    let mut cases = vec![];
+    let mut fmts = vec!["stream"];
+    if with_table {
+        fmts.push("table");
+    }
+    for fmt in fmts {
+        for mode in ["plain", "incr"] {
+            cases.push(json!({"fmt": fmt, "mode": mode, "sink": "healthy", "at": 0}).to_string());
+            cases.push(json!({"fmt": fmt, "mode": mode, "sink": "chunk3", "at": 0}).to_string());
+            for at in 0..=4 {
+                for sink in ["err", "ok0"] {
+                    cases.push(json!({"fmt": fmt, "mode": mode, "sink": sink, "at": at}).to_string());
+                }
+            }
+        }
+    }
+    let exe = std::env::current_exe().expect("own path").to_string_lossy().to_string();
+    let outs = sup::run_cases(&exe, &["limit-worker".to_string()], &cases, std::time::Duration::from_secs(secs), 2048);
+    for (c, o) in cases.iter().zip(outs) {
+        let cj: Value = serde_json::from_str(c).unwrap();
+        let mut rec = match o {
+            sup::Outcome::Line(l) => serde_json::from_str::<Value>(&l).unwrap_or_else(|_| json!({"ev": "limit", "tool": "bad worker line"})),
+            sup::Outcome::Crash(st) => json!({"ev": "limit", "fmt": cj["fmt"], "mode": cj["mode"], "ref": "crash", "refload": "none",
+                "failed": false, "result": "crash", "later": "none", "laterload": "none", "status": st, "plan": {"kind": cj["sink"], "k": -1}}),
+            sup::Outcome::Hang => json!({"ev": "limit", "fmt": cj["fmt"], "mode": cj["mode"], "ref": "hang", "refload": "none",
+                "failed": false, "result": "hang", "later": "none", "laterload": "none", "plan": {"kind": cj["sink"], "k": -1}}),
+        };
+        rec["profile"] = json!(profile);
+        rec["case"] = cj;
+        out.put(&rec);
+    }
+    out.finish();
+}
+
 fn main() {
     let args: Vec<String> = std::env::args().collect();
     // load_mem's parallel phase is C08's subject; one thread keeps thousands of tiny loads cheap
@@ -792,8 +950,10 @@ fn main() {
     match args.get(1).map(String::as_str) {
         Some("record") => record(&args),
         Some("replay") => replay(&args),
+        Some("limit") => limit(&args),
+        Some("limit-worker") => sup::worker_loop(limit_case),
         _ => {
-            eprintln!("usage: c19 record --seed S --docs N [--first I] [--combos M] [--size B] [--strmax L] --out F | replay --seed S --in F --out F");
+            eprintln!("usage: c19 record --seed S --docs N [--first I] [--combos M] [--size B] [--strmax L] --out F | replay --seed S --in F --out F | limit [--table 1] [--timeout S] --out F");
             std::process::exit(2)
         }
     }
